@@ -1,7 +1,8 @@
 #!/bin/sh
 # usage: tools/eval_seeded.sh <seeded dir> [CHECK-ID] [check args...]
 # Runs the property's own check (or CHECK-ID) against HEAD + the seeded change in scratch copies and
-# prints a one-line verdict plus the first violation keys.
+# prints a one-line verdict plus the first violation keys. With SEEDED_RESULTS=<file> a JSON line
+# {"seeded","check","exit","violations","keys","summary","repo_head","args"} is appended to <file>.
 dir="$1"; name="$(basename "$dir")"; id="${2:-${name%%-*}}"; [ $# -ge 2 ] && shift 2 || shift 1
 [ $# -eq 0 ] && set -- --tier quick
 log="$(mktemp /tmp/eval-$name-$id-XXXX.log)"
@@ -11,4 +12,17 @@ n=$(grep -c '^VIOLATION' "$log")
 echo "SEEDED $name check=$id $code violations=$n"
 grep '^VIOLATION' "$log" | sed 's/.*key=/   key=/' | cut -c1-200 | head -4
 grep -E '^\[C[0-9]+\]' "$log" | tail -1
+if [ -n "$SEEDED_RESULTS" ]; then
+  python3 - "$log" "$name" "$id" "$*" >> "$SEEDED_RESULTS" <<'PY'
+import json, re, subprocess, sys
+log, name, cid, args = sys.argv[1:5]
+text = open(log, errors="replace").read()
+keys = re.findall(r"^VIOLATION .*?key=(.*)$", text, re.M)
+m = re.findall(r"MUTANT-EXIT=(\d+)", text)
+summ = re.findall(r"^\[C\d+\].*$", text, re.M)
+head = subprocess.run(["git", "-C", "/repo", "rev-parse", "--short", "HEAD"], capture_output=True, text=True).stdout.strip()
+print(json.dumps({"seeded": name, "check": cid, "exit": int(m[-1]) if m else None, "violations": len(keys),
+                  "keys": [k[:160] for k in keys[:6]], "summary": summ[-1] if summ else None, "repo_head": head, "args": args}))
+PY
+fi
 rm -f "$log"
